@@ -36,12 +36,42 @@ NS4 = {"http://a.org/": "", "http://b.org/": "weso-s", "http://c.org/": "shapes"
 
 
 @st.composite
+def hub_graph(draw):
+    """1-2 hub nodes of class C0 (with a literal of their own) pointing, through 1-2 properties, to the instances of 2-4 other
+    classes that have no triple of their own: with class membership from a separate file those classes are all removed as empty in
+    the same cleaning round, and every reference to them must go - whatever the iteration order of the sets involved"""
+    k = draw(st.integers(2, 4))
+    tr = []
+    hubs = ["http://ex.org/h%d" % i for i in range(draw(st.integers(1, 2)))]
+    for h in hubs:
+        tr.append([["iri", h], RDF_TYPE, ["iri", "http://ex.org/C0"]])
+        tr.append([["iri", h], "http://ex.org/label", ["lit", "a", "http://www.w3.org/2001/XMLSchema#string", ""]])
+    classes = ["http://ex.org/C0"]
+    for j in range(1, k + 1):
+        c = gg.class_iri(j)
+        classes.append(c)
+        for x in range(draw(st.integers(1, 2))):
+            node = "http://ex.org/m%d_%d" % (j, x)
+            tr.append([["iri", node], RDF_TYPE, ["iri", c]])
+            for h in hubs:
+                if draw(st.integers(0, 3)) != 0:
+                    tr.append([["iri", h], "http://ex.org/p%d" % draw(st.integers(0, 1)), ["iri", node]])
+    perm = draw(st.permutations(range(len(tr))))
+    return {"triples": [tr[i] for i in perm], "classes": classes, "inst_prop": RDF_TYPE}
+
+
+@st.composite
 def cases(draw):
-    chan = draw(st.sampled_from(["nt", "nt", "tsv", "turtle_iter", "turtle", "rdflib", "sm", "endpoint", "ntfiles", "zip", "gz"]))
+    chan = draw(st.sampled_from(["nt", "nt", "tsv", "turtle_iter", "turtle", "rdflib", "sm", "endpoint", "ntfiles", "zip", "gz", "split", "split"]))
+    split = chan == "split"
+    if split:
+        chan = "nt"
     nob = chan in ("turtle", "rdflib", "sm", "endpoint")
     g = draw(gg.general(bnodes=not nob, lit_kinds=["word", "lang", "integer"] if chan == "endpoint" else None, max_stmts=22,
                         quirks=draw(gg.quirk_set(allowed=tuple(gg.QUIRKS) + ("odd_class_names", "odd_class_names"), one_in=4))
                         if chan not in ("endpoint", "sm") else []))
+    if split and draw(st.booleans()):
+        g = draw(hub_graph())
     cfg = draw(gg.switches())
     cfg["instances_report_mode"] = "mixed"
     case = {"g": g, "cfg": cfg, "chan": chan, "thr": draw(st.sampled_from([0, 0, 0.5, 1])), "fmt": draw(st.sampled_from(["ShEx", "ShEx", "Shacl"]))}
@@ -65,7 +95,7 @@ def cases(draw):
                 cs.insert(draw(st.integers(0, len(cs))), draw(st.sampled_from(["<%s>" % cs[k], cs[k]])))
     if chan == "endpoint":
         case["cache_off"] = draw(st.booleans())
-    if chan == "nt" and draw(st.integers(0, 1)) == 0:
+    if split:
         # class membership from a separate instances file, some instances without a triple of their own (their shapes are
         # removed as empty at profiling time and the references to them cleaned)
         case["split_instances"] = {"bare": draw(st.lists(st.integers(0, 7), min_size=0, max_size=3)),
